@@ -271,6 +271,12 @@ def run_case(cls, params, rec):
 			rec.refusal(cls, params, "out-of-memory error propagated")
 			rec.count("oom_propagated")
 			return
+		if params.get("bkind") in ("np0d", "t0d"):
+			# 0-d arrays / tensors are not documented kinds of batch size:
+			# refusing them is in order, mis-using them is not
+			rec.refusal(cls, params, "batch_size given as %s refused" %
+				params["bkind"])
+			return
 		rec.violation(cls, params, {"what": "predict raised",
 			"error": repr(y)[:300]}, mech="C03/raised")
 		return
